@@ -712,3 +712,24 @@ func (c Call) String() string {
 	}
 	return x
 }
+
+// BigUser: a user record whose custom attribute "groups" has n UUID-like values (assertions of about 60 bytes per value).
+func BigUser(id, name string, n int) *User {
+	u := &User{ID: id, Username: name, Email: name + "@example.com", FullName: "Big " + name}
+	vals := make([]string, n)
+	for i := range vals {
+		vals[i] = fmt.Sprintf("grp-%04d-7f3a9c1e-5b2d-4e8f-a1b0-%012d", i, i*7919)
+	}
+	u.Custom = []Custom{{Name: "groups", Friendly: "Groups", Format: "urn:oasis:names:tc:SAML:2.0:attrname-format:basic", Values: vals}}
+	return u
+}
+
+// LongToken: a string of n URL-safe characters that differs at every position from a shifted copy of itself.
+func LongToken(n int) string {
+	const al = "abcdefghijklmnopqrstuvwxyzABCDEFGHIJKLMNOPQRSTUVWXYZ0123456789-_"
+	b := make([]byte, n)
+	for i := range b {
+		b[i] = al[(i*7+i/64)%len(al)]
+	}
+	return string(b)
+}
